@@ -232,6 +232,11 @@ def eq(a, b, ctx):
         return str_term(a) == str_term(b)
     if isinstance(a, SData) or isinstance(b, SData):
         d, o = (a, b) if isinstance(a, SData) else (b, a)
+        hook = getattr(d.ty.dt, "eq_hook", None)
+        if hook is not None and not isinstance(o, SData):
+            r = hook(d.ty.dt, d.t, o, ctx)
+            if r is not None:
+                return r
         if isinstance(o, SData):
             if o.ty.dt is not d.ty.dt:
                 return False
